@@ -3,6 +3,14 @@
 
 package config
 
+import "time"
+
+// verifNetTimeout overrides NetTimeout() when > 0 (verification harness only).
+var verifNetTimeout time.Duration
+
+// VerifSetNetTimeout makes network timeouts short enough to exercise them.
+func VerifSetNetTimeout(d time.Duration) { verifNetTimeout = d }
+
 // VerifSet installs a configuration for the verification harness
 // (auth flag, cache_gop, hlsfragment, hlspath) without reading files or flags.
 func VerifSet(auth, cacheGop bool, hlsFragment int, hlsPath string) {
